@@ -559,7 +559,7 @@ func runC18(c *Ctx) {
 	}
 
 	// ------------------------------------------------------------------------------------------------ R5
-	c.rule("C18-R5", "the response is read in a loop whose exit depends on the header terminator", 1)
+	c.rule("C18-R5", "the response is read in a loop whose exit depends on the header terminator and on the buffer being full; the buffer is opened to its capacity first", 1)
 	{
 		n := 0
 		reader, _ := responseReader(upgrade)
@@ -617,6 +617,43 @@ func runC18(c *Ctx) {
 				}
 			})
 			c.check(window, upgrade, "terminator window", in.Pos(), "the terminator is searched in a window that overlaps earlier reads", "the header terminator is only searched in the bytes of the latest read: a response whose final CRLFCRLF is split across two segments is never recognised, Handshake blocks and the frames that follow are swallowed into the handshake buffer")
+			// the loop stops when the buffer is full (strictly: a read into an empty slice returns 0 bytes for ever), and
+			// the buffer was opened up to its capacity first (a second handshake must not inherit the length of the first)
+			strict := false
+			eachInstr(reader, func(x ssa.Instruction) {
+				bo, ok := x.(*ssa.BinOp)
+				if !ok || !inLoop(x) {
+					return
+				}
+				isLen := func(v ssa.Value) bool {
+					lc, ok := stripConv(v).(*ssa.Call)
+					if !ok {
+						return false
+					}
+					b, ok := lc.Call.Value.(*ssa.Builtin)
+					return ok && b.Name() == "len" && loadOfField(lc.Call.Args[0], hsBuf)
+				}
+				if (bo.Op == token.LSS && isLen(bo.Y)) || (bo.Op == token.GTR && isLen(bo.X)) {
+					strict = true
+				}
+				if (bo.Op == token.GEQ && isLen(bo.Y)) || (bo.Op == token.LEQ && isLen(bo.X)) {
+					strict = true // the exit test `n >= len(buf)`
+				}
+			})
+			c.check(strict, upgrade, "buffer bound", in.Pos(), "the loop runs only while received < len(buffer)", "the read loop does not stop when the handshake buffer is full (no strict received < len(buffer) test): a response longer than the buffer without a header terminator makes Handshake spin on zero-length reads instead of failing")
+			opened := false
+			for _, a := range storesTo(reader, hsBuf) {
+				cs, ok := stripConv(a.Val).(*ssa.Slice)
+				if !ok || !loadOfField(cs.X, hsBuf) || cs.High == nil {
+					continue
+				}
+				if cc, ok := stripConv(cs.High).(*ssa.Call); ok {
+					if b, ok := cc.Call.Value.(*ssa.Builtin); ok && b.Name() == "cap" && loadOfField(cc.Call.Args[0], hsBuf) && dominatesInstr(a.Instr, in) {
+						opened = true
+					}
+				}
+			}
+			c.check(opened, upgrade, "buffer opened", in.Pos(), "the buffer is re-sliced to its capacity before the response is read", "the handshake buffer is not re-sliced to its capacity before reading: it still has the length the previous handshake cut it to, so a second handshake on the stream can only receive a response that is no longer than the first")
 			c.check(looped && term, upgrade, "read response", in.Pos(), "reads until the blank line that ends the headers", "the response is read with a single Read (or the loop does not look for the header terminator): a response delivered in several segments fails to parse")
 		})
 		if n == 0 {
